@@ -30,7 +30,7 @@ def prop(pid, **kw):
     kw.setdefault('units', ['frost_core'])
     kw.setdefault('kani', False)
     kw.setdefault('claimed', True)
-    kw.setdefault('engine', 'verus' + ('+kani' if kw.get('kani') else ''))
+    kw.setdefault('engine', '+'.join(([] if kw.get('units') == [] else ['verus']) + (['kani'] if kw.get('kani') else []) + (['rt'] if kw.get('rt_always') else [])))
     kw.setdefault('technique', 'contract-based deductive verification (Verus) of mechanically extracted functions')
     PROPS[pid] = kw
 
@@ -69,7 +69,11 @@ def write_manifest(path):
                            kind_free_text='deductive verifier (Verus/z3) on functions extracted mechanically from /repo on every run, contracts injected from sidecar files'),
                       dict(name='kani', path='/verif/kani',
                            serves_properties=[c['property_id'] for c in checks if 'kani' in c['engine']],
-                           kind_free_text='Kani/CBMC harnesses on the real frost-core monomorphised at toy ciphersuites (complete where loop-free/full-domain, otherwise labelled bounded)')],
+                           kind_free_text='Kani/CBMC harnesses on the real frost-core monomorphised at toy ciphersuites (complete where loop-free/full-domain, otherwise labelled bounded)'),
+                      dict(name='rt', path='/verif/rt',
+                           serves_properties=[c['property_id'] for c in checks],
+                           kind_free_text='concrete replay search on the six real ciphersuite crates (oracles from the property statements): never decides OK; supplies failing inputs for '
+                                          'deductive violations, decides undecided verdicts when it finds one, validates assumed codec/serde contracts on every run of C12/C13, explores in the thorough tier')],
              checks=checks,
              notes='See DESIGN.md. Exit 2 of a check means undecided (lost anchor / unsupported construct / solver limit), never a pass and never an alarm.',
              not_applicable=na)
